@@ -1480,7 +1480,9 @@ impl Prop for C20 {
     }
     /// a decode loop that never ends or allocates without bound must become the outcome of one case
     fn isolate(&self) -> Option<(u64, u64)> {
-        Some((15, 8192))
+        // (a mutant that re-creates the reader at the wrong place loops for ~2^32 iterations while its listing
+        // grows: the address-space limit turns that into a quick abort, the time limit bounds the rest)
+        Some((6, 4096))
     }
     fn nontrivial(&self, _ops: &[String], out: &[String]) -> bool {
         out.len() == 4 && out[0].starts_with("resp") && out[1] != "offs -"
